@@ -60,8 +60,16 @@ SPECS = [
      "ctor": {}, "run": {"output_mode": "hql"}},
     {"ddl": 'CREATE TABLE "B1" ("p" int NOT NULL);\nCREATE SEQUENCE "B2" START 3;\n', "ctor": {"normalize_names": True, "silent": True}},
     {"ddl": "CREATE TABLE g1 (a int, b string) PARTITIONED BY (c int) STORED AS PARQUET;\n", "ctor": {"normalize_names": True}, "run": {"output_mode": "sql"}},
+    # objects constructed with debug=True (documented: implies silent=False) must still be independent of their neighbours
+    {"ddl": 'CREATE TABLE "sales"."orders" ("id" int, "customer" varchar(9));\nCREATE TABLE "sales"."order_lines" ("order_id" int, "qty" int);\n',
+     "ctor": {"debug": True, "normalize_names": True}},
+    {"ddl": 'CREATE TABLE "sales"."orders" ("id" int, "customer" varchar(9));\nCREATE TABLE "sales"."order_lines" ("order_id" int, "qty" int);\n',
+     "ctor": {"debug": False, "normalize_names": False, "silent": True}},
+    # B only alters / indexes a table that only A defines: alone it raises (table not defined in that script) - also after A has run
+    {"ddl": "CREATE TABLE xorders (id int, cust int);\nCREATE TABLE xcustomers (id int);\n", "ctor": {}},
+    {"ddl": "CREATE TABLE xcustomers2 (id int);\nALTER TABLE xorders ADD CONSTRAINT fk_x FOREIGN KEY (cust) REFERENCES xcustomers (id);\nCREATE INDEX xo_idx ON xorders (cust);\n", "ctor": {}},
 ]
-TWINS = [(0, 12), (0, 13), (12, 13), (2, 14), (15, 16), (17, 18), (1, 19), (6, 20)]
+TWINS = [(0, 12), (0, 13), (12, 13), (2, 14), (15, 16), (17, 18), (1, 19), (6, 20), (21, 22), (21, 1), (23, 24)]
 
 
 def solo_references():
